@@ -610,6 +610,12 @@ impl GlobalInferenceCtx<'_> {
 
         let mut idx = 0;
         while let Some((loc, expr)) = to_check.get(idx).copied() {
+            // a definition that (after an error) refers back to itself must not be followed forever
+            if to_check[..idx].contains(&(loc, expr)) {
+                idx += 1;
+                continue;
+            }
+
             let result = match &self.world_bodies[loc.file()][expr] {
                 Expr::Missing
                 | Expr::Lambda(_)
